@@ -100,7 +100,7 @@ fn pump(mut src: TcpStream, mut dst: TcpStream, from: &'static str, log: Arc<Mut
                     what: "pdu",
                     pdu_type: pdu[0],
                     len: len as u32,
-                    bytes: if pdu.len() <= keep { pdu.clone() } else { pdu[..12.min(pdu.len())].to_vec() },
+                    bytes: if pdu.len() <= keep { pdu.clone() } else { pdu[..16.min(pdu.len())].to_vec() },
                     how: String::new(),
                 });
             }
